@@ -61,6 +61,9 @@ TEXT = [
     ('outerpb-notranspose', 'break', ['C03'], ALG, "        ybar_data += cls._dot(cls._transpose(zbar_data), x_data, out = ybar_data.copy())", "        ybar_data += cls._dot(zbar_data, x_data, out = ybar_data.copy())"),
     ('outer-square', 'break', ['C07'], UT, "            out_shp = x_shp + y_shp[-1:]\n", "            out_shp = x_shp + x_shp[-1:]\n"),
     ('qrpb-side', 'break', ['C03'], ALG, "        cls._dot( cls._transpose(Qbar_data), Q_data, out = tmp1)", "        cls._dot( Q_data, cls._transpose(Qbar_data), out = tmp1)"),
+    ('bcast-dp-swapped', 'break', ['C02', 'C11'], ALG, "        y_data = y_data.transpose( tuple(range(2,Ly)) + (0,1))", "        y_data = y_data.transpose( tuple(range(2,Ly)) + (1,0))"),
+    ('bcast-back-wrong', 'break', ['C02', 'C11'], ALG, "        x_data = x_data.transpose( (Lx-2, Lx-1) +  tuple(range(Lx-2)) )", "        x_data = x_data.transpose( (Lx-1, Lx-2) +  tuple(range(Lx-2)) )"),
+    ('bcast-front', 'break', ['C02', 'C11'], ALG, "        x_data = x_data.transpose( tuple(range(2,Lx)) + (0,1))\n", "        x_data = x_data.transpose( (0,1) + tuple(range(2,Lx)))\n"),
     ('pbdot-drop-ybar', 'break', ['C03'], ALG, "        ybar_data += cls._dot(cls._transpose(x_data), zbar_data, out = ybar_data.copy())\n", "        pass\n"),
     ('pullback-dead-exit', 'break', ['C03', 'C04', 'C06'], TR, "            # case if the function F has output, e.g. y1 = F(x)\n            args = [F.xbar] + args + [F.x]", "            if F.xbar == 0:\n                return F\n            args = [F.xbar] + args + [F.x]"),
     ('mul-raw-broadcast', 'break', ['C11', 'C02'], UT, "            x_data, y_data = UTPM._broadcast_arrays(self.data, rhs.reshape((1,1)+rhs_shape))\n            return UTPM(x_data * y_data)", "            return UTPM(self.data * rhs)"),
